@@ -9,7 +9,7 @@ ALL = ["C%02d" % i for i in range(1, 21)]
 TECH = {
     "C01": "property-based testing (Hypothesis): generated multi-pass programs, marker-byte + mini-decoder oracle, pass-cycle hook, extra-pass differential",
     "C02": "property-based testing (Hypothesis): generated good/error/warning/fatal line mixes x options against a diagnostic-count model",
-    "C03": "fuzzing: Hypothesis grammar/mutation generators on the ASan build + libFuzzer in-process targets for the tools; sanitizer/signal/status/CPU-time judge",
+    "C03": "fuzzing: Hypothesis grammar/mutation generators on the ASan build + libFuzzer targets (in-process for the tools, fork-per-input with shared coverage counters for asl); sanitizer/signal/status/CPU-time judge",
     "C04": "property-based testing (Hypothesis): model-directed data programs, independent code-file reader + address model",
     "C05": "property-based testing (Hypothesis): synthetic code files x p2bin options against a reference image",
     "C06": "property-based testing (Hypothesis): synthetic code files x p2hex formats/options, independent hex decoders verifying checksums, round trip to the byte map",
@@ -20,6 +20,7 @@ TECH = {
     "C11": "property-based testing (Hypothesis): construct program vs generator-made hand expansion (differential on code files)",
     "C12": "property-based testing: exhaustive enumeration of small conditional skeletons + Hypothesis-sampled larger ones against a skeleton interpreter",
     "C13": "property-based testing (Hypothesis): section trees and reference forms against a scope resolver written from the manual",
+    "C13": "property-based testing (Hypothesis): generated section trees / local scopes / temporaries / symbol stacks against an independent scope resolver (value run + one error run per fault class)",
     "C14": "property-based testing (Hypothesis) over complete instruction-form tables against independent reference encoders",
     "C15": "property-based testing (Hypothesis): round trip asl -> dasl -> asl on generated instruction streams",
     "C16": "property-based testing (Hypothesis): metamorphic spelling rewrites of the golden corpus anchored on the recorded .ori images",
